@@ -16,6 +16,8 @@ func checkSupport(codecs []string) bool {
 		if !strings.HasPrefix(codec, "avc1.") &&
 			!strings.HasPrefix(codec, "hvc1.") &&
 			!strings.HasPrefix(codec, "hev1.") &&
+			!strings.HasPrefix(codec, "av01.") &&
+			!strings.HasPrefix(codec, "vp09.") &&
 			!strings.HasPrefix(codec, "mp4a.") &&
 			codec != "opus" {
 			return false
